@@ -80,6 +80,8 @@ var opNames = []string{
 // hostFuncNames are the exports of the host module "env" that every instance imports: one per definition style.
 var hostFuncNames = []string{"h_refl", "h_ctx", "h_none", "h_gomod", "h_go"}
 
+const badCallName = "badcall" // wrongly typed call_indirect; NOT a letter: called once per instance after peek
+
 const peekName = "peek" // guest-view digest of everything; NOT a letter: called once per instance after every word
 
 // Module shapes (the set of segment kinds a module has is a dimension of its own: per-module caches may be guarded
@@ -298,6 +300,12 @@ func guestModule(variant, shape int) []byte {
 	p.LocalGet(0)
 	m.ExportFunc(peekName, m.AddFunc(nil, []byte{i64}, []byte{i64}, p.B))
 
+	// badcall (not a letter; called once per instance after peek): call_indirect through table slot 0 with the WRONG
+	// type ()->i64 (slot 0 holds fA: ()->i32, in shape 4 null). It must trap in exactly the way it traps on a lone
+	// instance: a type check that consults numbering inherited from another runtime would accept the callee.
+	tI64 := m.Type(nil, []byte{i64})
+	m.ExportFunc(badCallName, m.AddFunc(nil, []byte{i64}, nil, (&wb.Asm{}).I32Const(0).CallIndirect(tI64, 0).B))
+
 	m.Exports = append(m.Exports,
 		wb.Export{Name: "memory", Kind: wb.KindMemory, Idx: 0},
 		wb.Export{Name: "g0", Kind: wb.KindGlobal, Idx: g0},
@@ -355,4 +363,53 @@ func guestScratch() []byte {
 	binary.LittleEndian.PutUint32(scratch[aIovR-128:], aRdBuf)
 	binary.LittleEndian.PutUint32(scratch[aIovR-128+4:], 4)
 	return scratch
+}
+
+// ---------------------------------------------------------------- bystander modules (runtime prelude)
+
+// bystanderModule is a module that has NOTHING to do with the guest (no imports, own memory / table / global): what a
+// runtime compiled, instantiated or closed BEFORE it ever saw the guest. Its type section contains the guest's own
+// function types among others, in an order that differs from the guest's and between the two kinds, so that everything
+// a store numbers or registers by first appearance (function type IDs, module list, names) differs between a runtime
+// that had this prelude and one that had not:
+//
+//	'X': [()->i64, ()->i32, (i32)->i32, (i32,i32)->i32]          the guest's types, reversed
+//	'Y': [(f32)->f32, ()->i32, (i32)->(), (i64,i64)->i64, ()->i64] shifted by unrelated types
+//
+// run() calls its own function through its own table (call_indirect), updates its global and memory and returns
+// 100*k + global (k = 1 for X, 2 for Y; the global starts at 5 and is incremented before it is read).
+func bystanderModule(kind byte) []byte {
+	m := &wb.Module{}
+	i32, i64 := wb.I32, wb.I64
+	var tRun, tF uint32
+	k := int32(1)
+	switch kind {
+	case 'X':
+		tRun = m.Type(nil, []byte{i64})
+		tF = m.Type(nil, []byte{i32})
+		m.Type([]byte{i32}, []byte{i32})
+		m.Type([]byte{i32, i32}, []byte{i32})
+	case 'Y':
+		k = 2
+		m.Type([]byte{wb.F32}, []byte{wb.F32})
+		tF = m.Type(nil, []byte{i32})
+		m.Type([]byte{i32}, nil)
+		m.Type([]byte{i64, i64}, []byte{i64})
+		tRun = m.Type(nil, []byte{i64})
+	default:
+		panic("bad bystander kind")
+	}
+	_ = tRun
+	m.Mem = &wb.Limits{Min: 1, Max: 2, HasMax: true}
+	m.Tables = []wb.Table{{Elem: wb.FuncRef, Lim: wb.Limits{Min: 2, Max: 2, HasMax: true}}}
+	g := m.AddGlobal(i32, true, wb.CI32(5))
+	f := m.AddFunc(nil, []byte{i32}, nil, (&wb.Asm{}).I32Const(100*k).GlobalGet(g).Op(0x6a).B)
+	m.Elems = []wb.Elem{{Mode: 0, Offset: wb.CI32(0), Funcs: []uint32{f}}}
+	m.Datas = []wb.Data{{Offset: wb.CI32(0), Bytes: []byte("bystander-" + string(kind))}}
+	m.ExportFunc("run", m.AddFunc(nil, []byte{i64}, nil, (&wb.Asm{}).
+		GlobalGet(g).I32Const(1).Op(0x6a).GlobalSet(g).
+		I32Const(16).I32Const(0).CallIndirect(tF, 0).Mem(0x36, 2, 0).
+		I32Const(16).Mem(0x35, 2, 0).B)) // i64.load32_u
+	m.Exports = append(m.Exports, wb.Export{Name: "memory", Kind: wb.KindMemory, Idx: 0})
+	return m.Encode()
 }
